@@ -15,7 +15,7 @@ S5_ADD = (" In addition the check runs rounds of the threaded substrate S5 (real
 checks = {
  "C01": dict(level="exploration", ref="3 C01, Appendix A", tech="runtime monitoring: seeded hostile histories against the real router (stepped through hooks) judged online by a sequential reference broker (exact per-subscription streams, unique message ids); plus threaded rounds with an offline history checker", note=S4_NOTE + S5_ADD,
              text="Every Forward the real router hands to a link is checked against the expected stream of exactly one subscription (accepted, matching, in acceptance order, once, granted QoS, topic/payload intact); at logical quiescent points (all clients drained and acked, router idle) every stream must be complete. Exploration over seeded histories, stepping modes and batch configurations; the right level for a property quantified over all histories and schedules when the deciding step must observe executions."),
- "C03": dict(level="exploration", ref="3 C03", tech="runtime monitoring: hostile event/packet fuzzing of the real router under catch_unwind + overflow checks, router-state invariants from a snapshot hook, service probe at quiescence", note=S4_NOTE,
+ "C03": dict(level="exploration", ref="3 C03, D.14, D.27", tech="runtime monitoring: hostile event/packet fuzzing of the real router under catch_unwind + overflow checks, router-state invariants from a snapshot hook, service probe at quiescence, blocked-step supervisor (a driven router step sleeping without CPU time = halt) with directed never-collecting-client / alias-limit scenarios", note=S4_NOTE,
              text="Every router step (events()/consume()) of hostile histories (protocol violations, bad acks, raw events for unknown/removed ids, stale events of ended links, takeovers, persistent sessions, shared groups, wills) runs under a panic/overflow monitor; after every step the router's own slabs/maps are checked for alignment; every history ends with a full quiescence check of all surviving clients (the broker must still serve)."),
  "C04": dict(level="exploration", ref="3 C04", tech="runtime monitoring: generated well-formed packets through all four real codecs, round-trip / size / cross-crate equality oracles on a canonical projection", note=S1_NOTE,
              text="encode->decode equality, exact consumption, reported size == bytes written for the four codecs, and client->broker / broker->client interoperability via a canonical projection; exhaustive over v5 property-presence masks (<=10 properties), flag combinations and remaining-length width boundaries, random beyond."),
@@ -25,7 +25,7 @@ checks = {
              text="For the packets each DeviceData step actually consumed the model emits the owed reply sequence; every ack the router puts into a link's buffer must be the head of that link's sequence (kind, packet id, return codes, right client, order) and nothing may be owed at quiescent points; QoS 2 publishes enter the acceptance log only at PUBREL, so a forward before release is spurious."),
  "C08": dict(level="fault_enumeration", ref="3 C08", tech="runtime monitoring with fault enumeration: for seeded base histories the end of a persistent session is injected before every operation in each of four flavours, then resumed; resume oracle from a sequential reference broker (restart at oldest unacknowledged QoS>0 message)", note=S4_NOTE,
              text="session_present, restored subscriptions, delivery of messages accepted while away, redelivery from the oldest unacknowledged QoS>0 message and no redelivery of acknowledged ones, clean connects starting empty. For every base history (12 quick / 1500 thorough, 25-60 operations, 2-4 persistent clients, bursts) the session end is injected before EVERY operation x {DISCONNECT packet, link failure, router-initiated close after a bad ack, take-over} (exhaustive per base history; base histories sampled), followed by a resume; plus random histories with 1-4 reconnect cycles and alternating clean flags."),
- "C09": dict(level="exploration", ref="3 C09", tech="runtime monitoring: boundary shadow of unacknowledged forwards per client at the router/link boundary (window <=100, id uniqueness, close on bad ack) and resumption at quiescence with acks as only stimulus", note=S4_NOTE,
+ "C09": dict(level="exploration", ref="3 C09, D.32, D.35", tech="runtime monitoring: boundary shadow of unacknowledged forwards per client at the router/link boundary (window <=100, id uniqueness, close on bad ack, no close on a solicited ack) and resumption at quiescence with acks as only stimulus; plus the buffer-full Unschedule/Ready handshake of the real connection task (full stack in memory) with a delay injected at a guarded pause point between the router's two critical sections", note=S4_NOTE,
              text="On every QoS>0 forward: packet id non-zero and not in the boundary-unacked set, at most 100 outstanding; unsolicited / out-of-order acks must close that connection and only that one; backlog must be completely forwarded at quiescent points reached with in-order acks as the only stimulus. Reuse of an id between PUBREC and PUBCOMP is counted in the evidence, not judged (see DESIGN.md 'readings')."),
  "C14": dict(level="exploration", ref="3 C14", tech="runtime monitoring: an always-present well-behaved publisher/subscriber pair judged by all delivery/ack oracles while other clients misbehave; closed-without-cause oracle; stale events of ended links injected around slot reuse; plus threaded rounds with a hostile reconnect-storm thread", note=S4_NOTE + S5_ADD,
              text="All C01/C06/C09 oracles restricted to the well-behaved pair plus 'a connection may only be closed for its own protocol violation, take-over or on request' for every connection, with the late events remote() can emit (DeviceData, Ready, Disconnect, PublishWill) injected at random positions relative to connects that reuse the slab slot."),
